@@ -1,7 +1,7 @@
 from typing import List
 import numpy as np
 
-from ...units import Unit, UnitEnvironment
+from ...units import Unit, Quantity, UnitEnvironment
 from .node_base import BaseNode
 from .node_select import SelectNode
 from ..datatypes import IntegerType,FloatType
@@ -53,7 +53,12 @@ class IntegerNode(BaseNode, SelectNode):
                 self.value_raw = s.solve(self.value_fn, self.units_raw)
         if self.value_expr: # Process expression
             with NumericalSolver(env) as s:
-                self.value_raw = np.round(s.solve(self.value_expr, self.units_raw))
+                value = s.solve(self.value_expr, self.units_raw)
+                if isinstance(value, Quantity):   # node without units
+                    if not value.baseunits.nodim:
+                        raise Exception("Expression result has units but the node has none:", self.code)
+                    value = value.value()
+                self.value_raw = np.round(value)
         # Testing validity of units
         if self.units_raw:
             with UnitEnvironment(env.units):
